@@ -297,14 +297,15 @@ Section Concrete.
   Lemma init_refines_create : forall w h sp,
     (h < length (w_hs w))%nat ->
     h_cell (getH w h) = None -> h_cached (getH w h) = Some sp -> h_id (getH w h) = calc_id frepr sp ->
+    is_null sp = false ->
     let wsd := wsp (getS w (h_s (getH w h))) in
     (forall k, (k <= length wsd)%nat -> get (w_fs w) (firstn k wsd) = Some Dir) ->
     (forall q, under (wsd ++ [h_id (getH w h)]) q = true -> get (w_fs w) q = None) ->
     exists w', init frepr false false w h = (w', inl tt) /\
       cstep_ok wsd (w_fs w) (ACreate (h_id (getH w h)) (sp_content frepr sp)) (w_fs w').
   Proof.
-    intros w h sp Hlt Hc Hca Hid wsd Hchain Hfree.
-    destruct (init_fresh_post frepr w h sp Hlt Hc Hca Hid Hchain Hfree) as [w' [Hi [Hjd [Hf [_ Hfr]]]]].
+    intros w h sp Hlt Hc Hca Hid Hnn wsd Hchain Hfree.
+    destruct (init_fresh_post frepr w h sp Hlt Hc Hca Hid Hnn Hchain Hfree) as [w' [Hi [Hjd [Hf [_ Hfr]]]]].
     exists w'. split; [exact Hi|]. fold wsd in Hjd, Hf, Hfr.
     apply ok_create; auto.
     - specialize (Hchain (length wsd) (le_n _)). rewrite firstn_all in Hchain. exact Hchain.
@@ -343,7 +344,7 @@ Section Concrete.
     let wsd := wsp (getS w (h_s h0)) in
     let src := wsd ++ [old] in
     let dst := wsd ++ [new] in
-    old <> new -> is_id old = true ->
+    old <> new -> is_null (c_data c) = false -> is_id old = true ->
     js <> [] ->
     (forall j, In j js -> (j < length (w_hs w))%nat /\ h_cell (getH w j) = Some ci /\ h_s (getH w j) = h_s h0) ->
     getCF w ci = src ++ [SPF] ->
@@ -354,8 +355,8 @@ Section Concrete.
     exists w', sp_save frepr false w ci = (w', inl tt) /\
       cstep_ok wsd (w_fs w) (ARekey old new (sp_content frepr (c_data c))) (w_fs w').
   Proof.
-    intros w ci cf c js h0 old new wsd src dst Hne Hio Hjs Hall HCF Hfile Htmp Htmp2 Hsrc Hws Hdst Hkids.
-    destruct (rekey_ok frepr w ci cf Hne Hjs Hall HCF Hfile Htmp Htmp2 Hsrc Hws Hdst Hkids)
+    intros w ci cf c js h0 old new wsd src dst Hne Hnn Hio Hjs Hall HCF Hfile Htmp Htmp2 Hsrc Hws Hdst Hkids.
+    destruct (rekey_ok frepr w ci cf Hne Hnn Hjs Hall HCF Hfile Htmp Htmp2 Hsrc Hws Hdst Hkids)
       as [w' [E [Hgone [Hnd [Hnf [Hnt [Hcarry [Hframe _]]]]]]]].
     exists w'. split; [exact E|].
     eapply ok_rekey; eauto. apply calc_id_is_id.
@@ -395,6 +396,33 @@ Section Concrete.
     eexists. split; [reflexivity|]. apply ok_remove. intro q. simpl.
     apply (get_rmtree (w_fs w) jd _ q R).
   Qed.
+  (* fix 270ca63: init() through a handle whose state point cannot be loaded has no effect at all *)
+  Lemma sp_access_fail_same : forall w h w1 e, sp_access frepr w h = (w1, inr e) -> w1 = w.
+  Proof.
+    intros w h w1 e H. unfold sp_access in H.
+    destruct (h_cell (getH w h)); [discriminate|]. destruct (h_cached (getH w h)); [discriminate|].
+    destruct (load_file frepr w (getH w h)); inversion H; reflexivity.
+  Qed.
+
+  Lemma init_unloadable_no_effect : forall susp force w h w1 e,
+    sp_access frepr w h = (w1, inr e) -> init frepr susp force w h = (w, inr e).
+  Proof.
+    intros susp force w h w1 e H. pose proof (sp_access_fail_same w h w1 e H) as ->.
+    unfold init. rewrite H. rewrite H. reflexivity.
+  Qed.
+
+  (* fix b6340e2: a string that is not exactly an id never resolves, whatever exists in the workspace *)
+  Lemma resolve_requires_id : forall f wsd i m, resolve f wsd i = inl m -> is_id m = true.
+  Proof.
+    intros f wsd i m H. unfold resolve, resolve_ids in H.
+    destruct (Nat.ltb (length i) 32).
+    - destruct (filter (str_prefix i) (job_dirs f wsd)) as [|x [|y r]] eqn:E; try discriminate.
+      inversion H; subst.
+      assert (Hin : In m (filter (str_prefix i) (job_dirs f wsd))) by (rewrite E; simpl; auto).
+      apply filter_In in Hin. destruct Hin as [Hin _]. apply job_dirs_listed in Hin. destruct Hin as [_ [_ Hid]]. exact Hid.
+    - destruct (id_match i && exists_ f (wsd ++ [i])) eqn:E; [|discriminate]. inversion H; subst.
+      apply andb_true_iff in E. destruct E as [E _]. rewrite id_match_is_id in E. exact E.
+  Qed.
 End Concrete.
 
 (* ------------------------------------------------------------------ len = |iteration| = membership in the model *)
@@ -426,12 +454,14 @@ Definition xa1b0 : json := JObj [(kA, JInt 1); (xB, JInt 0)].
 Definition xwB : path := [[66%N]].
 Definition xid (v : json) : str := calc_id wfr v.
 
-(* a rejected state point change (DestinationExistsError) is applied by the next change: the job {a:0} ends up as {a:1,b:0} *)
-Lemma dirty_witness :
+(* a rejected state point change (DestinationExistsError) is rolled back in memory too (fix 5e72814): the next
+   change starts from the job's real state point *)
+Definition xa0b0 : json := JObj [(kA, JInt 0); (xB, JInt 0)].
+Lemma rollback_example :
   run wfr w0 0 [ONewSession wA; OOpenSp 0 xa0; OInit 0 false; OOpenSp 0 xa1; OInit 1 false;
-                OEdit 0 [] (ESetKey kA (JInt 1)); OEdit 0 [] (ESetKey xB (JInt 0)); OIds 0]
-  = [VUnit; VStr (xid xa0); VUnit; VStr (xid xa1); VUnit; VExn EDestinationExists; VUnit;
-     VStrs [xid xa1; xid xa1b0]].
+                OEdit 0 [] (ESetKey kA (JInt 1)); OSp 0; OEdit 0 [] (ESetKey xB (JInt 0)); OIds 0]
+  = [VUnit; VStr (xid xa0); VUnit; VStr (xid xa1); VUnit; VExn EDestinationExists; VJson xa0; VUnit;
+     VStrs [xid xa1; xid xa0b0]].
 Proof. vm_compute. reflexivity. Qed.
 
 (* two handles of one job: after one re-keys it, a change through the other raises the lock registry's KeyError *)
@@ -441,13 +471,12 @@ Lemma lock_witness :
   = [VUnit; VStr (xid xa0); VUnit; VStr (xid xa0); VJson xa0; VUnit; VExn EKeyError].
 Proof. vm_compute. reflexivity. Qed.
 
-(* a by-id handle that never loaded its state point: init() after the job was removed raises and leaves an
-   empty id-named directory: it is listed and check() fails *)
-Lemma lazy_witness :
+(* a by-id handle that never loaded its state point: init() after the job was removed raises, but nothing is
+   created (fix 270ca63): the listing stays empty and check() passes *)
+Lemma lazy_example :
   run wfr w0 0 [ONewSession wA; OOpenSp 0 xa0; OInit 0 false; ONewSession wA; OOpenId 1 (xid xa0); ORemove 0;
                 OInit 1 false; OCheck 0; OIds 0]
-  = [VUnit; VStr (xid xa0); VUnit; VUnit; VStr (xid xa0); VUnit; VExn EJobsCorrupted; VExn EJobsCorrupted;
-     VStrs [xid xa0]].
+  = [VUnit; VStr (xid xa0); VUnit; VUnit; VStr (xid xa0); VUnit; VExn EJobsCorrupted; VUnit; VStrs []].
 Proof. vm_compute. reflexivity. Qed.
 
 (* a second handle keeps its document object over remove() + init() through the first: its next write resurrects
@@ -459,13 +488,20 @@ Lemma stale_doc_witness :
      VJson (JObj [(kA, JInt 1); (xB, JInt 2)])].
 Proof. vm_compute. reflexivity. Qed.
 
-(* after move(), a change through a shallow copy of the moved handle gives the MOVED handle the new id although its
-   job in the destination project keeps the old one *)
-Lemma moved_copy_witness :
+(* after move() the moved handle has left its old cell (fix d38783c): a change through a shallow copy no longer
+   touches it *)
+Lemma moved_copy_example :
   run wfr w0 0 [ONewSession wA; ONewSession xwB; OOpenSp 0 xa0; OInit 0 false; OSp 0; OCopy 0; OMove 0 1;
-                OEdit 1 [] (ESetKey kA (JInt 2)); OIdPath 0; OIds 1; OIds 0]
+                OEdit 1 [] (ESetKey kA (JInt 2)); OIdPath 0; OIdPath 1; OIds 1; OIds 0]
   = [VUnit; VUnit; VStr (xid xa0); VUnit; VJson xa0; VStr (xid xa0); VUnit; VUnit;
-     VIdPath (xid xa2) (xwB ++ [WS; xid xa2]); VStrs [xid xa0]; VStrs []].
+     VIdPath (xid xa0) (xwB ++ [WS; xid xa0]); VIdPath (xid xa2) (wA ++ [WS; xid xa2]); VStrs [xid xa0]; VStrs []].
+Proof. vm_compute. reflexivity. Qed.
+
+(* open_job(id = a name that is not an id) is refused although the directory exists (fix b6340e2) *)
+Lemma non_id_name_example :
+  let bak := xid xa0 ++ [46; 98; 97; 107]%N in
+  run wfr w0 0 [ONewSession wA; OOpenSp 0 xa0; OInit 0 false; OPlantDir (wA ++ [WS; bak]); OOpenId 0 bak; OIds 0; OLen 0]
+  = [VUnit; VStr (xid xa0); VUnit; VUnit; VExn EKeyError; VStrs [xid xa0]; VNum 1].
 Proof. vm_compute. reflexivity. Qed.
 
 (* no backup / temp file after a successful re-key *)
@@ -478,7 +514,7 @@ Lemma rekey_leaves_no_temp : forall frepr w ci cf,
   let wsd := wsp (getS w (h_s h0)) in
   let src := wsd ++ [old] in
   let dst := wsd ++ [new] in
-  old <> new -> js <> [] ->
+  old <> new -> is_null (c_data c) = false -> js <> [] ->
   (forall j, In j js -> (j < length (w_hs w))%nat /\ h_cell (getH w j) = Some ci /\ h_s (getH w j) = h_s h0) ->
   getCF w ci = src ++ [SPF] ->
   get (w_fs w) (src ++ [SPF]) = Some (File cf) ->
@@ -489,8 +525,8 @@ Lemma rekey_leaves_no_temp : forall frepr w ci cf,
     get (w_fs w') (dst ++ [SPT]) = None /\ get (w_fs w') (dst ++ [TMPPFX ++ SPF]) = None /\
     (forall r, get (w_fs w') (src ++ r) = None).
 Proof.
-  intros frepr w ci cf c js h0 old new wsd src dst Hne Hjs Hall HCF Hfile Htmp Htmp2 Hsrc Hws Hdst Hkids.
-  destruct (rekey_ok frepr w ci cf Hne Hjs Hall HCF Hfile Htmp Htmp2 Hsrc Hws Hdst Hkids)
+  intros frepr w ci cf c js h0 old new wsd src dst Hne Hnn Hjs Hall HCF Hfile Htmp Htmp2 Hsrc Hws Hdst Hkids.
+  destruct (rekey_ok frepr w ci cf Hne Hnn Hjs Hall HCF Hfile Htmp Htmp2 Hsrc Hws Hdst Hkids)
     as [w' [E [Hgone [_ [_ [Hnt [Hcarry _]]]]]]].
   exists w'. split; [exact E|]. split; [exact Hnt|]. split; [|exact Hgone].
   subst dst src wsd new old h0 js c. etransitivity; [apply (Hcarry (TMPPFX ++ SPF) [])|exact Htmp2].
